@@ -40,7 +40,7 @@ SECOND_NAMES = ['.Alias', 'Alias', 'org.ex.app.zz.Z']
 ENABLED = [None, True, False]
 PERMS = [[], [['android.permission.INTERNET', None]], [['android.permission.INTERNET', None], ['android.permission.INTERNET', 22]],
          [['android.permission.CAMERA', 28], ['a.b.CUSTOM', None]]]
-SDKS = [(None, None, None), (21, 30, None), (7, None, 19), (None, 33, None)]
+SDKS = [(None, None, None), (21, 30, None), (7, None, 19), (None, 33, None), (None, 0x7FFFFFFF, None)]
 SLOTS = [len(NAMES), len(SECOND), len(SECOND_NAMES), len(ENABLED), len(NAMES), len(PERMS), len(SDKS)]
 
 
@@ -125,8 +125,25 @@ def manifest_expected(M):
                 effective_target=eff, features=['android.hardware.camera'], libraries=['org.apache.http.legacy'])
 
 
+OTHER_GETTERS = ['get_app_name', 'get_app_icon', 'get_main_activities', 'get_declared_permissions', 'get_details_permissions',
+                 'get_requested_aosp_permissions', 'get_requested_third_party_permissions', 'get_files', 'is_valid_APK',
+                 'get_signature_names', 'get_intent_filters_dummy']
+
+
 def manifest_observed(apkmod, raw):
+    """the queries twice on one object: right after parsing, and again after the other public getters were used"""
     a = apkmod.APK(raw, raw=True)
+    first = manifest_snapshot(a)
+    for g in OTHER_GETTERS:
+        try:
+            getattr(a, g)()
+        except Exception:
+            pass
+    second = manifest_snapshot(a)
+    return first, second
+
+
+def manifest_snapshot(a):
     p = a.get_permissions()
     return dict(package=a.get_package(), version_code=a.get_androidversion_code(), version_name=a.get_androidversion_name(),
                 permissions=sorted(set(p)), permissions_unique=len(p) == len(set(p)), uses_permissions=sorted([list(x) for x in a.uses_permissions], key=repr),
@@ -136,7 +153,12 @@ def manifest_observed(apkmod, raw):
                 features=list(a.get_features()), libraries=list(a.get_libraries()))
 
 
-def manifest_diff(obs, exp):
+def manifest_diff(obs2, exp):
+    bad = manifest_diff1(obs2[0], exp)
+    return bad + ['after other getters were used on the same object: ' + b for b in manifest_diff1(obs2[1], exp)]
+
+
+def manifest_diff1(obs, exp):
     bad = []
     for k, v in obs.items():
         w = exp[k]
